@@ -308,3 +308,1093 @@ Proof.
         destruct (Qltb c2 c1) eqn:B; [reflexivity|].
         exfalso. apply Qltb_false in A, B. apply E. apply Qle_antisym; assumption.
 Qed.
+
+
+(* ------------------------------------------------------------------------- *)
+(* Part 2 : eps_compare and same_box against their specification              *)
+(* ------------------------------------------------------------------------- *)
+
+(* ---- floor facts (exact arithmetic) ---- *)
+Lemma floor_mul_le x e : (0 < e)%Q -> (inject_Z (Qfloor (x / e)) * e <= x)%Q.
+Proof.
+  intro He. pose proof (Qfloor_le (x / e)) as H.
+  apply (Qmult_le_compat_r _ _ e) in H; [|apply Qlt_le_weak; exact He].
+  assert (E : (x / e * e == x)%Q) by (field; intro C; rewrite C in He; apply (Qlt_irrefl 0 He)).
+  now rewrite E in H.
+Qed.
+
+Lemma floor_mul_gt x e : (0 < e)%Q -> (x < (inject_Z (Qfloor (x / e)) + 1) * e)%Q.
+Proof.
+  intro He. pose proof (Qlt_floor (x / e)) as H.
+  rewrite inject_Z_plus in H.
+  apply (Qmult_lt_compat_r _ _ e He) in H.
+  assert (E : (x / e * e == x)%Q) by (field; intro C; rewrite C in He; apply (Qlt_irrefl 0 He)).
+  now rewrite E in H.
+Qed.
+
+Lemma floor_div_mono x y e : (0 < e)%Q -> (x <= y)%Q -> Qfloor (x / e) <= Qfloor (y / e).
+Proof.
+  intros He H. apply Qfloor_resp_le. unfold Qdiv.
+  apply Qmult_le_compat_r; [exact H|]. apply Qlt_le_weak. now apply Qinv_lt_0_compat.
+Qed.
+
+(* ---- corner distance ---- *)
+Fixpoint csum (ev av : list Q) : Q :=
+  match ev, av with
+  | e :: ev', a :: av' =>
+      let t := (a - inject_Z (Qfloor (a / e)) * e)%Q in (t * t + csum ev' av')%Q
+  | _, _ => 0%Q
+  end.
+
+Lemma cdist_acc_csum : forall ev av acc, (cdist_acc ev av acc == acc + csum ev av)%Q.
+Proof.
+  induction ev as [|e ev IH]; intros [|a av] acc; cbn [cdist_acc csum]; try lra.
+  rewrite IH. lra.
+Qed.
+
+Lemma qsome_lt_all_le : forall av1 av2, length av1 = length av2 -> qsome_lt av2 av1 = negb (qall_le av1 av2).
+Proof.
+  induction av1 as [|x r1 IH]; intros [|y r2] H; simpl in H; try discriminate; try reflexivity.
+  cbn [qsome_lt qall_le]. rewrite negb_andb, negb_involutive, (IH r2) by lia. reflexivity.
+Qed.
+
+(* inside one box: no worse everywhere => no farther from the corner; better somewhere => nearer *)
+Lemma same_box_csum : forall ev av1 av2,
+  Forall (fun e => (0 < e)%Q) ev -> length av1 = length ev -> length av2 = length ev ->
+  box_vec ev av1 = box_vec ev av2 -> qall_le av1 av2 = true ->
+  (csum ev av1 <= csum ev av2)%Q /\ (qsome_lt av1 av2 = true -> (csum ev av1 < csum ev av2)%Q).
+Proof.
+  induction ev as [|e ev IH]; intros [|x r1] [|y r2] Hp H1 H2 Hb Hle; simpl in H1, H2; try discriminate.
+  - cbn [csum qsome_lt]. split; [lra|discriminate].
+  - cbn [csum qsome_lt box_vec qall_le] in *.
+    inversion Hp as [|? ? He Hp']; subst.
+    assert (Hk : Qfloor (x / e) = Qfloor (y / e)) by (change (hd 0 (Qfloor (x / e) :: box_vec ev r1) = hd 0 (Qfloor (y / e) :: box_vec ev r2)); now rewrite Hb).
+    assert (Hb' : box_vec ev r1 = box_vec ev r2) by (change (tl (Qfloor (x / e) :: box_vec ev r1) = tl (Qfloor (y / e) :: box_vec ev r2)); now rewrite Hb).
+    apply andb_true_iff in Hle. destruct Hle as [Hxy Hle']. apply negb_true_iff, Qltb_false in Hxy.
+    destruct (IH r1 r2 Hp' ltac:(lia) ltac:(lia) Hb' Hle') as [IH1 IH2].
+    pose proof (floor_mul_le x e He) as Lx.
+    rewrite <- Hk.
+    set (k := inject_Z (Qfloor (x / e))) in *.
+    assert (Sq : ((x - k * e) * (x - k * e) <= (y - k * e) * (y - k * e))%Q) by nra.
+    split; [lra|].
+    intro S. apply orb_true_iff in S. destruct S as [S|S].
+    + apply Qltb_lt in S.
+      assert (Sq' : ((x - k * e) * (x - k * e) < (y - k * e) * (y - k * e))%Q) by nra.
+      lra.
+    + specialize (IH2 S). lra.
+Qed.
+
+(* ---- violation key ---- *)
+Definition vlt (c : ecfg) (a b : esol) : bool := Qltb (eps_vkey c a) (eps_vkey c b).
+
+(* ---- the specification of compare ----
+   smaller violation class first; then Pareto dominance between the BOX INDEX vectors;
+   in one and the same box the solution nearer the box's ideal corner (equal distance
+   answers 1, never 0); boxes that do not dominate each other and differ: 0 *)
+Definition eps_cmp_spec (c : ecfg) (a b : esol) : Z :=
+  if vlt c a b then -1 else if vlt c b a then 1
+  else if zdom (eps_boxes c a) (eps_boxes c b) then -1
+  else if zdom (eps_boxes c b) (eps_boxes c a) then 1
+  else if zvec_eqb (eps_boxes c a) (eps_boxes c b)
+       then (if Qltb (eps_cdist c a) (eps_cdist c b) then -1 else 1)
+  else 0.
+
+Definition same_box_spec (c : ecfg) (a b : esol) : bool :=
+  Qeq_bool (eps_vkey c a) (eps_vkey c b) && zvec_eqb (eps_boxes c a) (eps_boxes c b).
+
+Lemma Qltb_compat a a' b b' : (a == a')%Q -> (b == b')%Q -> Qltb a b = Qltb a' b'.
+Proof.
+  intros Ea Eb. destruct (Qltb a b) eqn:E1; symmetry.
+  - apply Qltb_lt. apply Qltb_lt in E1. now rewrite <- Ea, <- Eb.
+  - apply Qltb_false. apply Qltb_false in E1. now rewrite <- Ea, <- Eb.
+Qed.
+
+Lemma eps_cdist_csum c s : (eps_cdist c s == csum (eps_vec c) (eps_adjs c s))%Q.
+Proof. unfold eps_cdist. rewrite cdist_acc_csum. lra. Qed.
+
+(* The tie-break inside one box, as the (repaired) code computes it: Pareto-better on the
+   adjusted objectives wins outright, otherwise the smaller corner distance.  In exact
+   arithmetic the first two branches agree with the distance rule. *)
+Lemma tie_break_is_distance c a b : wf_cfg c -> wf_sol c a -> wf_sol c b ->
+  eps_boxes c a = eps_boxes c b ->
+  let b1 := qsome_lt (eps_adjs c a) (eps_adjs c b) in
+  let b2 := qsome_lt (eps_adjs c b) (eps_adjs c a) in
+  (if b1 && negb b2 then Some (-1) else if b2 && negb b1 then Some 1
+   else if Qltb (eps_cdist c a) (eps_cdist c b) then Some (-1) else Some 1)
+  = (if Qltb (eps_cdist c a) (eps_cdist c b) then Some (-1) else Some 1).
+Proof.
+  intros Wc Wa Wb Hbox b1 b2.
+  pose proof (epsv_from_pos (e_eps c) Wc (length (e_dirs c)) 0%nat) as Hp. fold (eps_vec c) in Hp.
+  pose proof (eps_adjs_length c a Wa) as La. pose proof (eps_adjs_length c b Wb) as Lb.
+  pose proof (eps_vec_length c) as Le.
+  rewrite (Qltb_compat _ _ _ _ (eps_cdist_csum c a) (eps_cdist_csum c b)).
+  subst b1 b2.
+  rewrite (qsome_lt_all_le (eps_adjs c a) (eps_adjs c b)) by lia.
+  destruct (qall_le (eps_adjs c a) (eps_adjs c b)) eqn:A; cbn [negb andb].
+  - (* a <= b everywhere *)
+    assert (La' : length (eps_adjs c a) = length (eps_vec c)) by lia.
+    assert (Lb' : length (eps_adjs c b) = length (eps_vec c)) by lia.
+    destruct (same_box_csum (eps_vec c) (eps_adjs c a) (eps_adjs c b) Hp La' Lb' Hbox A) as [_ S].
+    destruct (qsome_lt (eps_adjs c a) (eps_adjs c b)) eqn:B; cbn [negb andb]; [|reflexivity].
+    specialize (S eq_refl). apply Qltb_lt in S. now rewrite S.
+  - rewrite andb_false_r.
+    rewrite (qsome_lt_all_le (eps_adjs c b) (eps_adjs c a)) by lia.
+    destruct (qall_le (eps_adjs c b) (eps_adjs c a)) eqn:B; cbn [negb andb]; [|reflexivity].
+    (* b <= a everywhere and b < a somewhere *)
+    assert (La' : length (eps_adjs c a) = length (eps_vec c)) by lia.
+    assert (Lb' : length (eps_adjs c b) = length (eps_vec c)) by lia.
+    destruct (same_box_csum (eps_vec c) (eps_adjs c b) (eps_adjs c a) Hp Lb' La' (eq_sym Hbox) B) as [_ S].
+    assert (S' : qsome_lt (eps_adjs c b) (eps_adjs c a) = true).
+    { rewrite (qsome_lt_all_le (eps_adjs c a) (eps_adjs c b)) by lia. now rewrite A. }
+    specialize (S S').
+    assert (F : Qltb (csum (eps_vec c) (eps_adjs c a)) (csum (eps_vec c) (eps_adjs c b)) = false).
+    { apply Qltb_false. apply Qlt_le_weak. exact S. }
+    now rewrite F.
+Qed.
+
+Lemma vkey_nonneg c s : wf_sol c s -> (0 <= eps_vkey c s)%Q.
+Proof. intros [_ H]. unfold eps_vkey. destruct (e_con c); [exact H|apply Qle_refl]. Qed.
+
+Lemma eps_ladder_vkey c a b : wf_sol c a -> wf_sol c b ->
+  eps_ladder (e_con c) (e_cv a) (e_cv b) =
+    if vlt c a b then Some (-1) else if vlt c b a then Some 1 else None.
+Proof.
+  intros [_ Ka] [_ Kb]. rewrite (eps_ladder_spec _ _ _ Ka Kb). unfold vlt, eps_vkey.
+  destruct (e_con c); cbn [andb]; [reflexivity|].
+  assert (Z : Qltb 0 0 = false) by reflexivity. now rewrite Z.
+Qed.
+
+(* eps_compare_spec : on well-formed inputs (eps > 0, nobjs objectives, cv >= 0) compare
+   raises nothing and answers exactly eps_cmp_spec. *)
+Theorem eps_compare_spec c a b : wf_cfg c -> wf_sol c a -> wf_sol c b ->
+  eps_compare c a b = Some (eps_cmp_spec c a b).
+Proof.
+  intros Wc Wa Wb. unfold eps_compare, eps_cmp_spec.
+  rewrite (eps_ladder_vkey c a b Wa Wb).
+  destruct (vlt c a b); [reflexivity|]. destruct (vlt c b a); [reflexivity|].
+  destruct Wa as [La Ka]. destruct Wb as [Lb Kb].
+  rewrite (eps_scan_total _ Wc _ _ _ _ _ _ La Lb).
+  fold (eps_vec c). fold (eps_adjs c a). fold (eps_adjs c b). fold (eps_boxes c a). fold (eps_boxes c b).
+  rewrite zscan_flags. cbn [andb orb].
+  assert (Lab : length (eps_boxes c a) = length (eps_boxes c b)).
+  { rewrite !eps_boxes_length; [reflexivity|split; assumption|split; assumption]. }
+  unfold zdom.
+  rewrite (zsome_lt_all_le (eps_boxes c a) (eps_boxes c b) Lab).
+  rewrite (zsome_lt_all_le (eps_boxes c b) (eps_boxes c a)) by lia.
+  rewrite <- (zall_le_both_eq _ _ Lab).
+  destruct (zall_le (eps_boxes c a) (eps_boxes c b)) eqn:A, (zall_le (eps_boxes c b) (eps_boxes c a)) eqn:B;
+    cbn [negb andb orb]; try reflexivity.
+  (* same box *)
+  rewrite (eps_dist_total _ Wc _ _ _ _ _ _ _ _ La Lb).
+  fold (eps_vec c). fold (eps_adjs c a). fold (eps_adjs c b). fold (eps_cdist c a). fold (eps_cdist c b).
+  cbn [orb].
+  assert (Hbox : eps_boxes c a = eps_boxes c b).
+  { apply zvec_eqb_eq. rewrite <- (zall_le_both_eq _ _ Lab). now rewrite A, B. }
+  pose proof (tie_break_is_distance c a b Wc (conj La Ka) (conj Lb Kb) Hbox) as T. cbv zeta in T.
+  rewrite T. destruct (Qltb (eps_cdist c a) (eps_cdist c b)); reflexivity.
+Qed.
+
+(* same_box_iff : same_box answers True exactly when the violation classes are equal and
+   all box indices are equal *)
+Theorem same_box_total c a b : wf_cfg c -> wf_sol c a -> wf_sol c b ->
+  same_box c a b = Some (same_box_spec c a b).
+Proof.
+  intros Wc Wa Wb. unfold same_box, same_box_spec.
+  rewrite (eps_ladder_vkey c a b Wa Wb). unfold vlt.
+  pose proof (vkey_nonneg c a Wa) as Na. pose proof (vkey_nonneg c b Wb) as Nb.
+  destruct (Qltb (eps_vkey c a) (eps_vkey c b)) eqn:E1.
+  - apply Qltb_lt in E1.
+    assert (F : Qeq_bool (eps_vkey c a) (eps_vkey c b) = false).
+    { destruct (Qeq_bool _ _) eqn:F; [|reflexivity]. apply Qeq_bool_iff in F. rewrite F in E1. exfalso. apply (Qlt_irrefl _ E1). }
+    now rewrite F.
+  - destruct (Qltb (eps_vkey c b) (eps_vkey c a)) eqn:E2.
+    + apply Qltb_lt in E2.
+      assert (F : Qeq_bool (eps_vkey c a) (eps_vkey c b) = false).
+      { destruct (Qeq_bool _ _) eqn:F; [|reflexivity]. apply Qeq_bool_iff in F. rewrite F in E2. exfalso. apply (Qlt_irrefl _ E2). }
+      now rewrite F.
+    + apply Qltb_false in E1, E2.
+      assert (F : Qeq_bool (eps_vkey c a) (eps_vkey c b) = true).
+      { apply Qeq_bool_iff. apply Qle_antisym; assumption. }
+      rewrite F. cbn [andb].
+      destruct Wa as [La Ka]. destruct Wb as [Lb Kb].
+      rewrite (eps_scan_total _ Wc _ _ _ _ _ _ La Lb).
+      fold (eps_vec c). fold (eps_adjs c a). fold (eps_adjs c b). fold (eps_boxes c a). fold (eps_boxes c b).
+      rewrite zscan_flags. cbn [andb orb].
+      assert (Lab : length (eps_boxes c a) = length (eps_boxes c b)).
+      { rewrite !eps_boxes_length; [reflexivity|split; assumption|split; assumption]. }
+      rewrite (zsome_lt_all_le (eps_boxes c a) (eps_boxes c b) Lab).
+      rewrite (zsome_lt_all_le (eps_boxes c b) (eps_boxes c a)) by lia.
+      rewrite <- (zall_le_both_eq _ _ Lab).
+      destruct (zall_le (eps_boxes c a) (eps_boxes c b)), (zall_le (eps_boxes c b) (eps_boxes c a)); reflexivity.
+Qed.
+
+Corollary same_box_iff c a b : wf_cfg c -> wf_sol c a -> wf_sol c b ->
+  (same_box c a b = Some true <->
+   (eps_vkey c a == eps_vkey c b)%Q /\ eps_boxes c a = eps_boxes c b).
+Proof.
+  intros Wc Wa Wb. rewrite (same_box_total c a b Wc Wa Wb). unfold same_box_spec. split.
+  - intro H. injection H as H. apply andb_true_iff in H. destruct H as [A B].
+    split; [now apply Qeq_bool_iff|now apply zvec_eqb_eq].
+  - intros [A B]. f_equal. apply andb_true_iff. split; [now apply Qeq_bool_iff|now apply zvec_eqb_eq].
+Qed.
+
+(* ---- a case view of the specification (all branches, as propositions) ---- *)
+Inductive cmp_view (c : ecfg) (a b : esol) : Z -> Prop :=
+| CV_less_violating : (eps_vkey c a < eps_vkey c b)%Q -> cmp_view c a b (-1)
+| CV_more_violating : (eps_vkey c b < eps_vkey c a)%Q -> cmp_view c a b 1
+| CV_box_dominates : (eps_vkey c a == eps_vkey c b)%Q ->
+    zdom (eps_boxes c a) (eps_boxes c b) = true -> cmp_view c a b (-1)
+| CV_box_dominated : (eps_vkey c a == eps_vkey c b)%Q ->
+    zdom (eps_boxes c b) (eps_boxes c a) = true -> cmp_view c a b 1
+| CV_same_box_nearer : (eps_vkey c a == eps_vkey c b)%Q -> eps_boxes c a = eps_boxes c b ->
+    (eps_cdist c a < eps_cdist c b)%Q -> cmp_view c a b (-1)
+| CV_same_box_not_nearer : (eps_vkey c a == eps_vkey c b)%Q -> eps_boxes c a = eps_boxes c b ->
+    (eps_cdist c b <= eps_cdist c a)%Q -> cmp_view c a b 1
+| CV_incomparable : (eps_vkey c a == eps_vkey c b)%Q ->
+    zdom (eps_boxes c a) (eps_boxes c b) = false -> zdom (eps_boxes c b) (eps_boxes c a) = false ->
+    eps_boxes c a <> eps_boxes c b -> cmp_view c a b 0.
+
+Lemma cmp_viewP c a b : cmp_view c a b (eps_cmp_spec c a b).
+Proof.
+  unfold eps_cmp_spec, vlt.
+  destruct (Qltb (eps_vkey c a) (eps_vkey c b)) eqn:E1.
+  { apply CV_less_violating. now apply Qltb_lt. }
+  destruct (Qltb (eps_vkey c b) (eps_vkey c a)) eqn:E2.
+  { apply CV_more_violating. now apply Qltb_lt. }
+  apply Qltb_false in E1, E2.
+  assert (V : (eps_vkey c a == eps_vkey c b)%Q) by (apply Qle_antisym; assumption).
+  destruct (zdom (eps_boxes c a) (eps_boxes c b)) eqn:D1; [now apply CV_box_dominates|].
+  destruct (zdom (eps_boxes c b) (eps_boxes c a)) eqn:D2; [now apply CV_box_dominated|].
+  destruct (zvec_eqb (eps_boxes c a) (eps_boxes c b)) eqn:D3.
+  - apply zvec_eqb_eq in D3.
+    destruct (Qltb (eps_cdist c a) (eps_cdist c b)) eqn:D4.
+    + apply CV_same_box_nearer; auto. now apply Qltb_lt.
+    + apply CV_same_box_not_nearer; auto. now apply Qltb_false.
+  - apply CV_incomparable; auto. intro H. apply zvec_eqb_eq in H. congruence.
+Qed.
+
+Lemma cmp_spec_range c a b :
+  eps_cmp_spec c a b = -1 \/ eps_cmp_spec c a b = 0 \/ eps_cmp_spec c a b = 1.
+Proof. destruct (cmp_viewP c a b); auto. Qed.
+
+(* "a eps-dominates b" *)
+Definition edom (c : ecfg) (a b : esol) : Prop :=
+  (eps_vkey c a < eps_vkey c b)%Q \/
+  ((eps_vkey c a == eps_vkey c b)%Q /\
+   (zdom (eps_boxes c a) (eps_boxes c b) = true \/
+    (eps_boxes c a = eps_boxes c b /\ (eps_cdist c a < eps_cdist c b)%Q))).
+
+Lemma Qltb_of_eq a b : (a == b)%Q -> Qltb a b = false.
+Proof. intro E. apply Qltb_false. rewrite E. apply Qle_refl. Qed.
+
+Lemma cmp_spec_first c a b : wf_sol c a -> wf_sol c b ->
+  (eps_cmp_spec c a b = -1 <-> edom c a b).
+Proof.
+  intros Wa Wb.
+  assert (Lab : length (eps_boxes c a) = length (eps_boxes c b)) by (now rewrite !eps_boxes_length).
+  split.
+  - intro H. unfold edom. destruct (cmp_viewP c a b); try discriminate; auto.
+  - unfold edom, eps_cmp_spec, vlt. intros [H|[V [H|[H1 H2]]]].
+    + apply Qltb_lt in H. now rewrite H.
+    + rewrite (Qltb_of_eq _ _ V). symmetry in V. rewrite (Qltb_of_eq _ _ V). now rewrite H.
+    + rewrite (Qltb_of_eq _ _ V). symmetry in V. rewrite (Qltb_of_eq _ _ V).
+      rewrite H1, zdom_irrefl, zvec_eqb_refl. apply Qltb_lt in H2. now rewrite H2.
+Qed.
+
+(* inside one box compare never answers 0: it is -1 or 1 according to the corner distance *)
+Corollary cmp_spec_same_box c a b :
+  (eps_vkey c a == eps_vkey c b)%Q -> eps_boxes c a = eps_boxes c b ->
+  eps_cmp_spec c a b = if Qltb (eps_cdist c a) (eps_cdist c b) then -1 else 1.
+Proof.
+  intros V H. unfold eps_cmp_spec, vlt.
+  rewrite (Qltb_of_eq _ _ V). symmetry in V. rewrite (Qltb_of_eq _ _ V).
+  now rewrite H, zdom_irrefl, zvec_eqb_refl.
+Qed.
+
+(* 0 exactly for equal violation class and distinct, mutually non-dominating boxes *)
+Lemma cmp_spec_zero c a b : wf_sol c a -> wf_sol c b ->
+  (eps_cmp_spec c a b = 0 <->
+   (eps_vkey c a == eps_vkey c b)%Q /\ zdom (eps_boxes c a) (eps_boxes c b) = false /\
+   zdom (eps_boxes c b) (eps_boxes c a) = false /\ eps_boxes c a <> eps_boxes c b).
+Proof.
+  intros Wa Wb. split.
+  - intro H. destruct (cmp_viewP c a b); try discriminate; auto.
+  - intros [V [D1 [D2 N]]]. unfold eps_cmp_spec, vlt.
+    rewrite (Qltb_of_eq _ _ V). symmetry in V. rewrite (Qltb_of_eq _ _ V). rewrite D1, D2.
+    destruct (zvec_eqb (eps_boxes c a) (eps_boxes c b)) eqn:E; [|reflexivity].
+    apply zvec_eqb_eq in E. contradiction.
+Qed.
+
+(* eps-dominance is transitive *)
+Theorem edom_trans c x y z : wf_sol c x -> wf_sol c y -> wf_sol c z ->
+  edom c x y -> edom c y z -> edom c x z.
+Proof.
+  intros Wx Wy Wz.
+  assert (Lxy : length (eps_boxes c x) = length (eps_boxes c y)) by (now rewrite !eps_boxes_length).
+  assert (Lyz : length (eps_boxes c y) = length (eps_boxes c z)) by (now rewrite !eps_boxes_length).
+  unfold edom. intros [A|[VA A]] [B|[VB B]].
+  - left. lra.
+  - left. lra.
+  - left. lra.
+  - right. split; [lra|].
+    destruct A as [A|[A1 A2]], B as [B|[B1 B2]].
+    + left. eapply zdom_trans; eauto.
+    + left. now rewrite <- B1.
+    + left. now rewrite A1.
+    + right. split; [congruence|lra].
+Qed.
+
+Theorem eps_dominates_trans c x y z : wf_cfg c -> wf_sol c x -> wf_sol c y -> wf_sol c z ->
+  eps_compare c x y = Some (-1) -> eps_compare c y z = Some (-1) -> eps_compare c x z = Some (-1).
+Proof.
+  intros Wc Wx Wy Wz. rewrite !eps_compare_spec by assumption. intros A B.
+  injection A as A. injection B as B. f_equal.
+  apply (cmp_spec_first c x y Wx Wy) in A. apply (cmp_spec_first c y z Wy Wz) in B.
+  apply (cmp_spec_first c x z Wx Wz). exact (edom_trans c x y z Wx Wy Wz A B).
+Qed.
+
+(* and irreflexive / asymmetric *)
+Lemma edom_irrefl c x : ~ edom c x x.
+Proof.
+  unfold edom. intros [H|[_ [H|[_ H]]]].
+  - apply (Qlt_irrefl _ H).
+  - rewrite zdom_irrefl in H. discriminate.
+  - apply (Qlt_irrefl _ H).
+Qed.
+
+Lemma edom_asym c x y : wf_sol c x -> wf_sol c y -> edom c x y -> ~ edom c y x.
+Proof. intros Wx Wy A B. apply (edom_irrefl c x). exact (edom_trans c x y x Wx Wy Wx A B). Qed.
+
+(* first dominates second  =>  the swapped call answers 1 *)
+Lemma cmp_spec_flip c a b : wf_sol c a -> wf_sol c b ->
+  eps_cmp_spec c a b = -1 -> eps_cmp_spec c b a = 1.
+Proof.
+  intros Wa Wb H. apply (cmp_spec_first c a b Wa Wb) in H.
+  destruct (cmp_viewP c b a) as [V|V|V D|V D|V E D|V E D|V D1 D2 N]; try reflexivity; exfalso.
+  - apply (edom_asym c a b Wa Wb H). left. exact V.
+  - apply (edom_asym c a b Wa Wb H). right. split; auto.
+  - apply (edom_asym c a b Wa Wb H). right. split; auto.
+  - destruct H as [H|[_ [H|[H _]]]]; [lra|congruence|congruence].
+Qed.
+
+
+(* ------------------------------------------------------------------------- *)
+(* Part 3 : consistency with Pareto dominance                                 *)
+(*   Pareto dominance is the C02 model (Model/Dominance.v, proved there to be  *)
+(*   the constraint-first Pareto order) at the carrier xq, the rational        *)
+(*   objectives / violation embedded by Fin.                                   *)
+(* ------------------------------------------------------------------------- *)
+Definition to_dsol (s : esol) : xdsol := Build_dsol (map Fin (e_objs s)) (Fin (e_cv s)).
+
+Definition pareto_cmp (c : ecfg) (a b : esol) : Z :=
+  x_pareto_compare (e_con c) (e_dirs c) (to_dsol a) (to_dsol b).
+
+Lemma to_dsol_wf c s : wf_sol c s -> wf xq xltb xzero (e_dirs c) (to_dsol s).
+Proof.
+  intros [L K]. split.
+  - cbn [to_dsol d_objs]. now rewrite map_length.
+  - unfold cv_ok. cbn [to_dsol d_cv xzero xltb]. now apply Qltb_false.
+Qed.
+
+Lemma xq_all_le_q dirs : forall o1 o2, length o1 = length dirs -> length o2 = length dirs ->
+  all_le xq xltb xneg dirs (map Fin o1) (map Fin o2) = qall_le (adj_vec dirs o1) (adj_vec dirs o2).
+Proof.
+  induction dirs as [|mx d IH]; intros [|a r1] [|b r2] H1 H2; simpl in H1, H2; try discriminate; try reflexivity.
+  cbn [map all_le adj_vec qall_le]. rewrite IH by lia. f_equal. destruct mx; reflexivity.
+Qed.
+
+Lemma xq_some_lt_q dirs : forall o1 o2, length o1 = length dirs -> length o2 = length dirs ->
+  some_lt xq xltb xneg dirs (map Fin o1) (map Fin o2) = qsome_lt (adj_vec dirs o1) (adj_vec dirs o2).
+Proof.
+  induction dirs as [|mx d IH]; intros [|a r1] [|b r2] H1 H2; simpl in H1, H2; try discriminate; try reflexivity.
+  cbn [map some_lt adj_vec qsome_lt]. rewrite IH by lia. f_equal. destruct mx; reflexivity.
+Qed.
+
+(* floor is monotone: no worse everywhere => box no worse everywhere *)
+Lemma qall_le_boxes : forall ev av1 av2, Forall (fun e => (0 < e)%Q) ev ->
+  length av1 = length ev -> length av2 = length ev ->
+  qall_le av1 av2 = true -> zall_le (box_vec ev av1) (box_vec ev av2) = true.
+Proof.
+  induction ev as [|e ev IH]; intros [|x r1] [|y r2] Hp H1 H2 H; simpl in H1, H2; try discriminate; try reflexivity.
+  cbn [qall_le box_vec zall_le] in *. inversion Hp as [|? ? He Hp']; subst.
+  apply andb_true_iff in H. destruct H as [A B]. apply negb_true_iff, Qltb_false in A.
+  apply andb_true_iff. split.
+  - apply Z.leb_le. now apply floor_div_mono.
+  - apply IH; auto; lia.
+Qed.
+
+(* Pareto-better on the problem (violation first, then objectives) implies eps-dominance *)
+Lemma pareto_better_edom c a b : wf_cfg c -> wf_sol c a -> wf_sol c b ->
+  better xq xltb xneg (e_con c) (e_dirs c) (to_dsol a) (to_dsol b) = true -> edom c a b.
+Proof.
+  intros Wc Wa Wb H.
+  pose proof (epsv_from_pos (e_eps c) Wc (length (e_dirs c)) 0%nat) as Hp. fold (eps_vec c) in Hp.
+  pose proof (eps_adjs_length c a Wa) as La. pose proof (eps_adjs_length c b Wb) as Lb.
+  pose proof (eps_vec_length c) as Le.
+  assert (La' : length (eps_adjs c a) = length (eps_vec c)) by lia.
+  assert (Lb' : length (eps_adjs c b) = length (eps_vec c)) by lia.
+  assert (Lab : length (eps_boxes c a) = length (eps_boxes c b)) by (now rewrite !eps_boxes_length).
+  destruct Wa as [LA KA]. destruct Wb as [LB KB].
+  unfold better in H. cbn [to_dsol d_cv d_objs xltb] in H.
+  apply orb_true_iff in H. destruct H as [H|H].
+  - apply andb_true_iff in H. destruct H as [Hc H]. left. unfold eps_vkey. rewrite Hc. now apply Qltb_lt.
+  - apply andb_true_iff in H. destruct H as [Hv Hd].
+    assert (V : (eps_vkey c a == eps_vkey c b)%Q).
+    { unfold eps_vkey. destruct (e_con c); [|reflexivity]. cbn [negb orb] in Hv.
+      unfold Dominance.veq in Hv. cbn [xltb] in Hv. apply andb_true_iff in Hv. destruct Hv as [A B].
+      apply negb_true_iff, Qltb_false in A, B. now apply Qle_antisym. }
+    right. split; [exact V|].
+    unfold pdom in Hd. rewrite (xq_all_le_q _ _ _ LA LB), (xq_some_lt_q _ _ _ LA LB) in Hd.
+    fold (eps_adjs c a) in Hd. fold (eps_adjs c b) in Hd.
+    apply andb_true_iff in Hd. destruct Hd as [Hle Hlt].
+    pose proof (qall_le_boxes (eps_vec c) _ _ Hp La' Lb' Hle) as Bl.
+    fold (eps_boxes c a) in Bl. fold (eps_boxes c b) in Bl.
+    destruct (zsome_lt (eps_boxes c a) (eps_boxes c b)) eqn:S.
+    + left. unfold zdom. now rewrite Bl, S.
+    + right.
+      assert (E : eps_boxes c a = eps_boxes c b).
+      { apply zvec_eqb_eq. rewrite <- (zall_le_both_eq _ _ Lab). rewrite Bl. cbn [andb].
+        rewrite (zsome_lt_all_le (eps_boxes c b) (eps_boxes c a)) in S by lia.
+        now apply negb_false_iff in S. }
+      split; [exact E|].
+      destruct (same_box_csum (eps_vec c) (eps_adjs c a) (eps_adjs c b) Hp La' Lb' E Hle) as [_ St].
+      rewrite (eps_cdist_csum c a), (eps_cdist_csum c b). now apply St.
+Qed.
+
+(* eps_respects_pareto : whenever Pareto dominance prefers the first solution, so does
+   epsilon-dominance (and symmetrically for the second): it never contradicts Pareto *)
+Theorem eps_respects_pareto c a b : wf_cfg c -> wf_sol c a -> wf_sol c b ->
+  pareto_cmp c a b = -1 -> eps_compare c a b = Some (-1).
+Proof.
+  intros Wc Wa Wb H. rewrite (eps_compare_spec c a b Wc Wa Wb). f_equal.
+  apply (cmp_spec_first c a b Wa Wb). apply (pareto_better_edom c a b Wc Wa Wb).
+  unfold pareto_cmp, x_pareto_compare in H.
+  now apply (compare_iff_first xq xltb xneg xzero xq_laws (e_con c) (e_dirs c) _ _
+               (to_dsol_wf c a Wa) (to_dsol_wf c b Wb)).
+Qed.
+
+Theorem eps_respects_pareto_second c a b : wf_cfg c -> wf_sol c a -> wf_sol c b ->
+  pareto_cmp c a b = 1 -> eps_compare c a b = Some 1.
+Proof.
+  intros Wc Wa Wb H. rewrite (eps_compare_spec c a b Wc Wa Wb). f_equal.
+  apply (cmp_spec_flip c b a Wb Wa).
+  apply (cmp_spec_first c b a Wb Wa). apply (pareto_better_edom c b a Wc Wb Wa).
+  unfold pareto_cmp, x_pareto_compare in H.
+  now apply (compare_iff_second xq xltb xneg xzero xq_laws (e_con c) (e_dirs c) _ _
+               (to_dsol_wf c a Wa) (to_dsol_wf c b Wb)).
+Qed.
+
+
+(* ------------------------------------------------------------------------- *)
+(* Part 4 : the archives                                                      *)
+(* ------------------------------------------------------------------------- *)
+
+(* ---- list plumbing ---- *)
+Lemma map_opt_total {A B} (f : A -> option B) (g : A -> B) : forall l,
+  (forall x, In x l -> f x = Some (g x)) -> eps_map_opt f l = Some (map g l).
+Proof.
+  induction l as [|x r IH]; intro H; cbn [eps_map_opt map]; [reflexivity|].
+  rewrite (H x (or_introl eq_refl)). rewrite IH; [reflexivity|]. intros y Hy. apply H. now right.
+Qed.
+
+Lemma compress_filter {A B} (g : A -> B) (h : B -> bool) : forall l,
+  eps_compress l (map h (map g l)) = filter (fun m => h (g m)) l.
+Proof.
+  induction l as [|x r IH]; cbn [eps_compress map filter]; [reflexivity|].
+  destruct (h (g x)); now rewrite IH.
+Qed.
+
+Lemma existsb_map {A B} (g : A -> B) (h : B -> bool) l : existsb h (map g l) = existsb (fun m => h (g m)) l.
+Proof. induction l as [|x r IH]; cbn [existsb map]; [reflexivity|]. now rewrite IH. Qed.
+
+Lemma forallb_map {A B} (g : A -> B) (h : B -> bool) l : forallb h (map g l) = forallb (fun m => h (g m)) l.
+Proof. induction l as [|x r IH]; cbn [forallb map]; [reflexivity|]. now rewrite IH. Qed.
+
+Lemma FOP_filter {A} (R : A -> A -> Prop) (f : A -> bool) l :
+  ForallOrdPairs R l -> ForallOrdPairs R (filter f l).
+Proof.
+  induction 1 as [|x l Hx Hl IH]; cbn [filter]; [constructor|].
+  destruct (f x); [|exact IH]. constructor; [|exact IH].
+  rewrite Forall_forall in *. intros y Hy. apply Hx. apply filter_In in Hy. tauto.
+Qed.
+
+Lemma FOP_snoc {A} (R : A -> A -> Prop) l s :
+  ForallOrdPairs R l -> Forall (fun m => R m s) l -> ForallOrdPairs R (l ++ [s]).
+Proof.
+  induction 1 as [|x l Hx Hl IH]; intro H; cbn [app].
+  - constructor; constructor.
+  - inversion H as [|? ? Hxs Hls]; subst. constructor; [|now apply IH].
+    apply Forall_app. split; [exact Hx|]. constructor; [exact Hxs|constructor].
+Qed.
+
+Lemma FOP_In {A} (R : A -> A -> Prop) (Rsym : forall x y, R x y -> R y x) l :
+  ForallOrdPairs R l -> forall x y, In x l -> In y l -> x = y \/ R x y.
+Proof.
+  induction 1 as [|z l Hz Hl IH]; intros x y Hx Hy; [destruct Hx|].
+  rewrite Forall_forall in Hz.
+  destruct Hx as [Hx|Hx], Hy as [Hy|Hy]; subst; auto.
+Qed.
+
+(* ---- total step functions (what the model computes on well-formed inputs) ---- *)
+(* some member is at least as good: compare(s, m) = 1 *)
+Definition rejects (c : ecfg) (a : list esol) (s : esol) : bool :=
+  existsb (fun m => eps_cmp_spec c s m >? 0) a.
+Definition add_contents (c : ecfg) (a : list esol) (s : esol) : list esol :=
+  if rejects c a s then a else filter (fun m => eps_cmp_spec c s m =? 0) a ++ [s].
+(* no current member has the violation class and box of s *)
+Definition unoccupied (c : ecfg) (a : list esol) (s : esol) : bool :=
+  forallb (fun m => negb (same_box_spec c s m)) a.
+
+Lemma add_contents_wf c a s : Forall (wf_sol c) a -> wf_sol c s -> Forall (wf_sol c) (add_contents c a s).
+Proof.
+  intros Ha Hs. unfold add_contents. destruct (rejects c a s); [exact Ha|].
+  apply Forall_app. split; [|now constructor].
+  rewrite Forall_forall in *. intros m Hm. apply filter_In in Hm. now apply Ha.
+Qed.
+
+Lemma eps_box_add_total c a imp s : wf_cfg c -> Forall (wf_sol c) a -> wf_sol c s ->
+  eps_box_add c (a, imp) s =
+  Some ((add_contents c a s, if negb (rejects c a s) && unoccupied c a s then S imp else imp),
+        negb (rejects c a s)).
+Proof.
+  intros Wc Wa Ws. rewrite Forall_forall in Wa. unfold eps_box_add.
+  rewrite (map_opt_total (eps_compare c s) (eps_cmp_spec c s)) by (intros m Hm; apply eps_compare_spec; auto).
+  rewrite (map_opt_total (same_box c s) (same_box_spec c s)) by (intros m Hm; apply same_box_total; auto).
+  rewrite existsb_map. fold (rejects c a s). unfold add_contents.
+  destruct (rejects c a s); cbn [negb andb]; [reflexivity|].
+  rewrite compress_filter, !forallb_map. reflexivity.
+Qed.
+
+Lemma eps_plain_add_total c a s : wf_cfg c -> Forall (wf_sol c) a -> wf_sol c s ->
+  eps_plain_add c a s = Some (add_contents c a s, negb (rejects c a s)).
+Proof.
+  intros Wc Wa Ws. rewrite Forall_forall in Wa. unfold eps_plain_add, eps_arch_add.
+  rewrite (map_opt_total (eps_compare c s) (eps_cmp_spec c s)) by (intros m Hm; apply eps_compare_spec; auto).
+  rewrite existsb_map. fold (rejects c a s). unfold add_contents.
+  destruct (rejects c a s); cbn [negb]; [reflexivity|].
+  now rewrite compress_filter.
+Qed.
+
+(* a rejected add leaves contents and counter unchanged (no hypotheses needed) *)
+Lemma eps_box_add_reject c st s st' : eps_box_add c st s = Some (st', false) -> st' = st.
+Proof.
+  destruct st as [a imp]. unfold eps_box_add.
+  destruct (eps_map_opt (eps_compare c s) a) as [flags|]; [|discriminate].
+  destruct (eps_map_opt (same_box c s) a) as [sb|]; [|discriminate].
+  destruct (existsb _ flags); intro H; [congruence|discriminate].
+Qed.
+
+Lemma eps_plain_add_reject c a s a' : eps_plain_add c a s = Some (a', false) -> a' = a.
+Proof.
+  unfold eps_plain_add, eps_arch_add.
+  destruct (eps_map_opt (eps_compare c s) a) as [flags|]; [|discriminate].
+  destruct (existsb _ flags); intro H; [congruence|discriminate].
+Qed.
+
+(* ---- relations the invariant speaks about ---- *)
+(* same key = same violation class and same box *)
+Definition same_key (c : ecfg) (m m' : esol) : Prop :=
+  (eps_vkey c m == eps_vkey c m')%Q /\ eps_boxes c m = eps_boxes c m'.
+(* members live side by side: equal violation class, different boxes, neither box dominates *)
+Definition indep (c : ecfg) (m m' : esol) : Prop :=
+  (eps_vkey c m == eps_vkey c m')%Q /\ zdom (eps_boxes c m) (eps_boxes c m') = false /\
+  zdom (eps_boxes c m') (eps_boxes c m) = false /\ eps_boxes c m <> eps_boxes c m'.
+(* m weakly box-dominates x (or x is more constraint-violating) *)
+Definition wdom (c : ecfg) (m x : esol) : Prop :=
+  (eps_vkey c m < eps_vkey c x)%Q \/
+  ((eps_vkey c m == eps_vkey c x)%Q /\ zall_le (eps_boxes c m) (eps_boxes c x) = true).
+
+Lemma indep_sym c m m' : indep c m m' -> indep c m' m.
+Proof. intros [V [A [B N]]]. repeat split; auto. now symmetry. Qed.
+
+Lemma wdom_refl c x : wdom c x x.
+Proof. right. split; [reflexivity|apply zall_le_refl]. Qed.
+
+Lemma wdom_trans c x y z : wf_sol c x -> wf_sol c y -> wf_sol c z ->
+  wdom c x y -> wdom c y z -> wdom c x z.
+Proof.
+  intros Wx Wy Wz.
+  assert (Lxy : length (eps_boxes c x) = length (eps_boxes c y)) by (now rewrite !eps_boxes_length).
+  assert (Lyz : length (eps_boxes c y) = length (eps_boxes c z)) by (now rewrite !eps_boxes_length).
+  unfold wdom. intros [A|[VA A]] [B|[VB B]].
+  - left; lra.
+  - left; lra.
+  - left; lra.
+  - right. split; [lra|]. eapply zall_le_trans; eauto.
+Qed.
+
+Lemma zdom_all_le b1 b2 : zdom b1 b2 = true -> zall_le b1 b2 = true.
+Proof. unfold zdom. intro H. apply andb_true_iff in H. tauto. Qed.
+
+Lemma edom_wdom c m x : edom c m x -> wdom c m x.
+Proof.
+  intros [H|[V [H|[H _]]]]; [now left| |]; right; split; auto.
+  - now apply zdom_all_le.
+  - rewrite H. apply zall_le_refl.
+Qed.
+
+(* compare(s, m) = 1 : m is at least as good as s *)
+Lemma cmp_one_wdom c s m : eps_cmp_spec c s m = 1 -> wdom c m s.
+Proof.
+  intro H. destruct (cmp_viewP c s m) as [V|V|V D|V D|V E D|V E D|V D1 D2 N]; try discriminate.
+  - now left.
+  - right. split; [now symmetry|now apply zdom_all_le].
+  - right. split; [now symmetry|]. rewrite E. apply zall_le_refl.
+Qed.
+
+(* ---- one step preserves the invariant ---- *)
+(* z is at least as good as x: compare(x, z) = 1 *)
+Definition geq (c : ecfg) (z x : esol) : Prop :=
+  (eps_vkey c z < eps_vkey c x)%Q \/
+  ((eps_vkey c z == eps_vkey c x)%Q /\
+   (zdom (eps_boxes c z) (eps_boxes c x) = true \/
+    (eps_boxes c z = eps_boxes c x /\ (eps_cdist c z <= eps_cdist c x)%Q))).
+
+Lemma geq_refl c x : geq c x x.
+Proof. right. split; [reflexivity|]. right. split; [reflexivity|apply Qle_refl]. Qed.
+
+Lemma geq_wdom c z x : geq c z x -> wdom c z x.
+Proof.
+  intros [H|[V [H|[H _]]]]; [now left| |]; right; split; auto.
+  - now apply zdom_all_le.
+  - rewrite H. apply zall_le_refl.
+Qed.
+
+Lemma cmp_one_geq c s m : eps_cmp_spec c s m = 1 -> geq c m s.
+Proof.
+  intro H. destruct (cmp_viewP c s m) as [V|V|V D|V D|V E D|V E D|V D1 D2 N]; try discriminate.
+  - now left.
+  - right. split; [now symmetry|now left].
+  - right. split; [now symmetry|]. right. split; [now symmetry|exact D].
+Qed.
+
+Lemma geq_edom_trans c z x m : wf_sol c z -> wf_sol c x -> wf_sol c m ->
+  geq c z x -> edom c x m -> edom c z m.
+Proof.
+  intros Wz Wx Wm.
+  assert (L1 : length (eps_boxes c z) = length (eps_boxes c x)) by (now rewrite !eps_boxes_length).
+  assert (L2 : length (eps_boxes c x) = length (eps_boxes c m)) by (now rewrite !eps_boxes_length).
+  unfold geq, edom. intros [A|[VA A]] [B|[VB B]].
+  - left; lra.
+  - left; lra.
+  - left; lra.
+  - right. split; [lra|].
+    destruct A as [A|[A1 A2]], B as [B|[B1 B2]].
+    + left. eapply zdom_trans; eauto.
+    + left. now rewrite <- B1.
+    + left. now rewrite A1.
+    + right. split; [congruence|lra].
+Qed.
+
+Lemma edom_geq_trans c s z x : wf_sol c s -> wf_sol c z -> wf_sol c x ->
+  edom c s z -> geq c z x -> edom c s x.
+Proof.
+  intros Ws Wz Wx.
+  assert (L1 : length (eps_boxes c s) = length (eps_boxes c z)) by (now rewrite !eps_boxes_length).
+  assert (L2 : length (eps_boxes c z) = length (eps_boxes c x)) by (now rewrite !eps_boxes_length).
+  unfold geq, edom. intros [A|[VA A]] [B|[VB B]].
+  - left; lra.
+  - left; lra.
+  - left; lra.
+  - right. split; [lra|].
+    destruct A as [A|[A1 A2]], B as [B|[B1 B2]].
+    + left. eapply zdom_trans; eauto.
+    + left. now rewrite <- B1.
+    + left. now rewrite A1.
+    + right. split; [congruence|lra].
+Qed.
+
+Lemma indep_not_edom c z m : indep c z m -> ~ edom c z m.
+Proof.
+  intros [V [D [_ N]]] [H|[_ [H|[H _]]]]; [lra|congruence|contradiction].
+Qed.
+
+Lemma edom_geq c z x : edom c z x -> geq c z x.
+Proof.
+  intros [H|[V [H|[H1 H2]]]]; [now left|right; split; auto|].
+  right. split; [exact V|]. right. split; [exact H1|now apply Qlt_le_weak].
+Qed.
+
+(* ---- one step preserves the invariant ---- *)
+Definition members_ok (c : ecfg) (a : list esol) : Prop :=
+  Forall (wf_sol c) a /\ ForallOrdPairs (indep c) a.
+(* strong coverage: every offered solution is beaten or tied by some member *)
+Definition covers (c : ecfg) (a offered : list esol) : Prop :=
+  Forall (fun x => Exists (fun m => geq c m x) a) offered.
+(* no member is eps-dominated by anything ever offered *)
+Definition nodom (c : ecfg) (a offered : list esol) : Prop :=
+  forall x m, In x offered -> In m a -> ~ edom c x m.
+
+Lemma step_members c a s : members_ok c a -> wf_sol c s -> members_ok c (add_contents c a s).
+Proof.
+  intros [Wa Pa] Ws. split; [now apply add_contents_wf|].
+  unfold add_contents. destruct (rejects c a s); [exact Pa|].
+  apply FOP_snoc; [now apply FOP_filter|].
+  rewrite Forall_forall in *. intros m Hm. apply filter_In in Hm. destruct Hm as [Hm Hz].
+  apply Z.eqb_eq in Hz. apply (cmp_spec_zero c s m Ws (Wa m Hm)) in Hz.
+  apply indep_sym. exact Hz.
+Qed.
+
+Lemma rejects_witness c a s : rejects c a s = true -> exists m, In m a /\ eps_cmp_spec c s m = 1.
+Proof.
+  unfold rejects. intro R. apply existsb_exists in R. destruct R as [m [Hm Hp]].
+  exists m. split; [exact Hm|]. apply Z.gtb_lt in Hp.
+  destruct (cmp_spec_range c s m) as [H|[H|H]]; rewrite H in *; try lia; reflexivity.
+Qed.
+
+Lemma accepted_no_one c a s m : rejects c a s = false -> In m a -> eps_cmp_spec c s m <> 1.
+Proof.
+  unfold rejects. intros R Hm H.
+  assert (existsb (fun m0 => eps_cmp_spec c s m0 >? 0) a = true).
+  { apply existsb_exists. exists m. split; [exact Hm|]. now rewrite H. }
+  congruence.
+Qed.
+
+Lemma step_covers c a offered s : Forall (wf_sol c) a -> Forall (wf_sol c) offered -> wf_sol c s ->
+  covers c a offered -> covers c (add_contents c a s) (offered ++ [s]).
+Proof.
+  intros Wa Wo Ws Hc. unfold covers in *. unfold add_contents.
+  destruct (rejects c a s) eqn:R.
+  - (* rejected: contents unchanged, s is covered by the member that beat it *)
+    apply Forall_app. split; [exact Hc|]. constructor; [|constructor].
+    destruct (rejects_witness c a s R) as [m [Hm H1]].
+    apply Exists_exists. exists m. split; [exact Hm|]. now apply cmp_one_geq.
+  - (* accepted *)
+    apply Forall_app. split.
+    + rewrite Forall_forall in *. intros x Hx. specialize (Hc x Hx).
+      apply Exists_exists in Hc. destruct Hc as [m [Hm Hmx]].
+      apply Exists_exists.
+      destruct (cmp_spec_range c s m) as [H|[H|H]].
+      * (* s eps-dominates m: m is removed, s takes over its coverage *)
+        exists s. split; [apply in_or_app; right; now left|].
+        apply (cmp_spec_first c s m Ws (Wa m Hm)) in H.
+        apply edom_geq. exact (edom_geq_trans c s m x Ws (Wa m Hm) (Wo x Hx) H Hmx).
+      * exists m. split; [|exact Hmx]. apply in_or_app. left. apply filter_In. split; [exact Hm|].
+        now apply Z.eqb_eq.
+      * exfalso. exact (accepted_no_one c a s m R Hm H).
+    + constructor; [|constructor]. apply Exists_exists. exists s. split; [apply in_or_app; right; now left|apply geq_refl].
+Qed.
+
+Lemma step_nodom c a offered s : members_ok c a -> Forall (wf_sol c) offered -> wf_sol c s ->
+  covers c a offered -> nodom c a offered -> nodom c (add_contents c a s) (offered ++ [s]).
+Proof.
+  intros [Wa Pa] Wo Ws Hc Hn. unfold nodom in *. unfold add_contents.
+  rewrite Forall_forall in Wa, Wo. unfold covers in Hc. rewrite Forall_forall in Hc.
+  destruct (rejects c a s) eqn:R; intros x m Hx Hm E; apply in_app_or in Hx.
+  - (* rejected *)
+    destruct Hx as [Hx|[<-|[]]]; [exact (Hn x m Hx Hm E)|].
+    destruct (rejects_witness c a s R) as [z [Hz H1]]. apply cmp_one_geq in H1.
+    pose proof (geq_edom_trans c z s m (Wa z Hz) Ws (Wa m Hm) H1 E) as Ezm.
+    destruct (FOP_In (indep c) (indep_sym c) a Pa z m Hz Hm) as [->|I].
+    + exact (edom_irrefl c m Ezm).
+    + exact (indep_not_edom c z m I Ezm).
+  - (* accepted *)
+    apply in_app_or in Hm. destruct Hm as [Hm|[<-|[]]].
+    + apply filter_In in Hm. destruct Hm as [Hm Hz]. apply Z.eqb_eq in Hz.
+      destruct Hx as [Hx|[<-|[]]]; [exact (Hn x m Hx Hm E)|].
+      apply (cmp_spec_first c s m Ws (Wa m Hm)) in E. lia.
+    + destruct Hx as [Hx|[<-|[]]]; [|exact (edom_irrefl c s E)].
+      (* an earlier offer x eps-dominates the newcomer: then the member covering x beats s *)
+      specialize (Hc x Hx). apply Exists_exists in Hc. destruct Hc as [z [Hz Gzx]].
+      pose proof (geq_edom_trans c z x s (Wa z Hz) (Wo x Hx) Ws Gzx E) as Ezs.
+      apply (cmp_spec_first c z s (Wa z Hz) Ws) in Ezs.
+      apply (cmp_spec_flip c z s (Wa z Hz) Ws) in Ezs.
+      exact (accepted_no_one c a s z R Hz Ezs).
+Qed.
+
+Lemma add_contents_incl c a offered s : incl a offered -> incl (add_contents c a s) (offered ++ [s]).
+Proof.
+  intros H x Hx. unfold add_contents in Hx. destruct (rejects c a s).
+  - apply in_or_app. left. now apply H.
+  - apply in_app_or in Hx. destruct Hx as [Hx|Hx].
+    + apply filter_In in Hx. apply in_or_app. left. apply H. tauto.
+    + apply in_or_app. now right.
+Qed.
+
+(* ---- the counter ---- *)
+(* number of offers of the history l (applied from state st on) that were accepted AND whose
+   key (violation class, box) was held by no member at that moment *)
+Fixpoint new_box_count_from (c : ecfg) (st : list esol * nat) (l : list esol) : nat :=
+  match l with
+  | [] => 0
+  | s :: r =>
+      match eps_box_add c st s with
+      | Some (st', ok) => (if ok && unoccupied c (fst st) s then 1 else 0) + new_box_count_from c st' r
+      | None => 0
+      end
+  end.
+Definition new_box_count (c : ecfg) (l : list esol) : nat := new_box_count_from c ([], 0%nat) l.
+
+(* ---- the invariant ---- *)
+Record EInv (c : ecfg) (offered a : list esol) (imp : nat) : Prop := {
+  (* members are offered solutions *)
+  ei_members_offered : incl a offered;
+  (* (i) at most one member per (violation class, box) key *)
+  ei_one_per_box : ForallOrdPairs (fun m m' => ~ same_key c m m') a;
+  (*     (all members share one violation class) *)
+  ei_one_class : forall m m', In m a -> In m' a -> (eps_vkey c m == eps_vkey c m')%Q;
+  (* (ii) no member's box Pareto-dominates another member's box *)
+  ei_no_box_dominates : forall m m', In m a -> In m' a -> zdom (eps_boxes c m) (eps_boxes c m') = false;
+  (* (iii) coverage: every solution ever offered is weakly box-dominated by, or more
+           constraint-violating than, some member *)
+  ei_coverage : Forall (fun x => Exists (fun m => wdom c m x) a) offered;
+  (*     stronger: ... is beaten or tied by some member (box-dominated, or same box and the
+         member at least as near the corner) *)
+  ei_strong_coverage : Forall (fun x => Exists (fun m => geq c m x) a) offered;
+  (*     and no member is eps-dominated by anything ever offered *)
+  ei_members_nondominated : forall x m, In x offered -> In m a -> ~ edom c x m;
+  (* (iv) the counter *)
+  ei_counter : imp = new_box_count c offered
+}.
+
+Lemma run_from_inv c : wf_cfg c -> forall l offered st,
+  members_ok c (fst st) -> incl (fst st) offered -> Forall (wf_sol c) offered ->
+  covers c (fst st) offered -> nodom c (fst st) offered ->
+  Forall (wf_sol c) l ->
+  exists st', eps_box_run_from c st l = Some st' /\
+              members_ok c (fst st') /\ incl (fst st') (offered ++ l) /\
+              covers c (fst st') (offered ++ l) /\ nodom c (fst st') (offered ++ l) /\
+              snd st' = (snd st + new_box_count_from c st l)%nat.
+Proof.
+  intros Wc l. induction l as [|s r IH]; intros offered [a imp] Hm Hi Wo Hc Hn Wl.
+  - exists (a, imp). cbn [eps_box_run_from new_box_count_from fst snd] in *. rewrite app_nil_r.
+    repeat split; auto; try apply Hm; lia.
+  - inversion Wl as [|? ? Ws Wr]; subst. cbn [fst snd] in *.
+    cbn [eps_box_run_from new_box_count_from].
+    rewrite (eps_box_add_total c a imp s Wc (proj1 Hm) Ws).
+    set (a1 := add_contents c a s).
+    set (imp1 := if negb (rejects c a s) && unoccupied c a s then S imp else imp).
+    destruct (IH (offered ++ [s]) (a1, imp1)) as [st' [E [M [I [C [D N]]]]]]; cbn [fst snd].
+    + now apply step_members.
+    + now apply add_contents_incl.
+    + apply Forall_app. split; [exact Wo|now constructor].
+    + apply step_covers; auto. apply Hm.
+    + now apply step_nodom.
+    + exact Wr.
+    + exists st'. rewrite <- app_assoc in I, C, D. cbn [app] in I, C, D.
+      repeat split; auto; try apply M.
+      rewrite N. cbn [fst snd]. subst imp1.
+      destruct (negb (rejects c a s) && unoccupied c a s); lia.
+Qed.
+
+Lemma indep_not_same_key c m m' : indep c m m' -> ~ same_key c m m'.
+Proof. intros [_ [_ [_ N]]] [_ E]. contradiction. Qed.
+
+Lemma FOP_impl {A} (R R' : A -> A -> Prop) l : (forall x y, R x y -> R' x y) ->
+  ForallOrdPairs R l -> ForallOrdPairs R' l.
+Proof.
+  intros H. induction 1 as [|x l Hx Hl IH]; constructor; auto.
+  rewrite Forall_forall in *. auto.
+Qed.
+
+(* EInv holds after EVERY insertion history of well-formed solutions, and the run raises nothing *)
+Theorem eps_box_run_inv c l : wf_cfg c -> Forall (wf_sol c) l ->
+  exists a imp, eps_box_run c l = Some (a, imp) /\ EInv c l a imp.
+Proof.
+  intros Wc Wl. unfold eps_box_run.
+  destruct (run_from_inv c Wc l [] ([], 0%nat)) as [[a imp] [E [[Wa Pa] [I [C [D N]]]]]]; cbn [fst snd] in *.
+  - split; constructor.
+  - intros x [].
+  - constructor.
+  - constructor.
+  - intros x m [].
+  - exact Wl.
+  - exists a, imp. split; [exact E|].
+    pose proof (FOP_In (indep c) (indep_sym c) a Pa) as PI.
+    split.
+    + exact I.
+    + apply (FOP_impl (indep c)); [apply indep_not_same_key|exact Pa].
+    + intros m m' Hm Hm'. destruct (PI m m' Hm Hm') as [->|[V _]]; [reflexivity|exact V].
+    + intros m m' Hm Hm'. destruct (PI m m' Hm Hm') as [->|[_ [D' _]]]; [apply zdom_irrefl|exact D'].
+    + unfold covers in C. rewrite Forall_forall in *. intros x Hx. specialize (C x Hx).
+      apply Exists_exists in C. destruct C as [m [Hm G]]. apply Exists_exists. exists m. split; [exact Hm|now apply geq_wdom].
+    + exact C.
+    + exact D.
+    + unfold new_box_count. lia.
+Qed.
+
+(* Archive(EpsilonDominance(..)) holds the very same contents as EpsilonBoxArchive *)
+Lemma plain_run_from_eq c : wf_cfg c -> forall l a imp, Forall (wf_sol c) a -> Forall (wf_sol c) l ->
+  eps_plain_run_from c a l = option_map fst (eps_box_run_from c (a, imp) l).
+Proof.
+  intros Wc l. induction l as [|s r IH]; intros a imp Wa Wl; [reflexivity|].
+  inversion Wl as [|? ? Ws Wr]; subst.
+  cbn [eps_plain_run_from eps_box_run_from].
+  rewrite (eps_plain_add_total c a s Wc Wa Ws), (eps_box_add_total c a imp s Wc Wa Ws).
+  apply IH; [now apply add_contents_wf|exact Wr].
+Qed.
+
+Theorem eps_plain_run_eq c l : wf_cfg c -> Forall (wf_sol c) l ->
+  eps_plain_run c l = option_map fst (eps_box_run c l).
+Proof. intros Wc Wl. apply plain_run_from_eq; auto. Qed.
+
+(* accepted iff no member is at least as good *)
+Theorem eps_box_add_accept_iff c a imp s st' ok : wf_cfg c -> Forall (wf_sol c) a -> wf_sol c s ->
+  eps_box_add c (a, imp) s = Some (st', ok) ->
+  (ok = false <-> exists m, In m a /\ eps_compare c s m = Some 1).
+Proof.
+  intros Wc Wa Ws. rewrite (eps_box_add_total c a imp s Wc Wa Ws). intro H. injection H as _ H. subst ok.
+  rewrite negb_false_iff. unfold rejects. rewrite existsb_exists. rewrite Forall_forall in Wa.
+  split; intros [m [Hm Hp]]; exists m; (split; [exact Hm|]).
+  - rewrite (eps_compare_spec c s m Wc Ws (Wa m Hm)). f_equal. apply Z.gtb_lt in Hp.
+    destruct (cmp_spec_range c s m) as [R|[R|R]]; rewrite R in *; try lia.
+  - rewrite (eps_compare_spec c s m Wc Ws (Wa m Hm)) in Hp. injection Hp as Hp. now rewrite Hp.
+Qed.
+
+(* one step of the counter, in terms of the key of the newcomer *)
+Theorem eps_box_add_counter c a imp s a' imp' ok : wf_cfg c -> Forall (wf_sol c) a -> wf_sol c s ->
+  eps_box_add c (a, imp) s = Some ((a', imp'), ok) ->
+  imp' = (imp + (if ok && forallb (fun m => negb (same_box_spec c s m)) a then 1 else 0))%nat.
+Proof.
+  intros Wc Wa Ws. rewrite (eps_box_add_total c a imp s Wc Wa Ws). intro H.
+  injection H as _ H1 H2. subst ok imp'. unfold unoccupied.
+  destruct (negb (rejects c a s) && forallb _ a); lia.
+Qed.
+
+(* ---- coverage in objective space: within one epsilon in every objective ---- *)
+Lemma zall_le_within : forall ev av1 av2, Forall (fun e => (0 < e)%Q) ev ->
+  length av1 = length ev -> length av2 = length ev ->
+  zall_le (box_vec ev av1) (box_vec ev av2) = true ->
+  forall i, (i < length ev)%nat -> (nth i av1 0 < nth i av2 0 + nth i ev 0)%Q.
+Proof.
+  induction ev as [|e ev IH]; intros [|x r1] [|y r2] Hp H1 H2 H i Hi; simpl in H1, H2, Hi; try discriminate; try lia.
+  cbn [box_vec zall_le] in H. inversion Hp as [|? ? He Hp']; subst.
+  apply andb_true_iff in H. destruct H as [A B]. apply Z.leb_le in A.
+  destruct i as [|i]; cbn [nth].
+  - pose proof (floor_mul_gt x e He) as Gx. pose proof (floor_mul_le y e He) as Ly.
+    assert (A' : (inject_Z (Qfloor (x / e)) <= inject_Z (Qfloor (y / e)))%Q) by (rewrite <- Zle_Qle; exact A).
+    set (kx := inject_Z (Qfloor (x / e))) in *. set (ky := inject_Z (Qfloor (y / e))) in *. nra.
+  - apply IH; auto; lia.
+Qed.
+
+Theorem wdom_within_eps c m x : wf_cfg c -> wf_sol c m -> wf_sol c x -> wdom c m x ->
+  (eps_vkey c m < eps_vkey c x)%Q \/
+  ((eps_vkey c m == eps_vkey c x)%Q /\
+   forall i, (i < length (e_dirs c))%nat ->
+     (nth i (eps_adjs c m) 0 < nth i (eps_adjs c x) 0 + nth i (eps_vec c) 0)%Q).
+Proof.
+  intros Wc Wm Wx [H|[V H]]; [now left|right]. split; [exact V|].
+  pose proof (epsv_from_pos (e_eps c) Wc (length (e_dirs c)) 0%nat) as Hp. fold (eps_vec c) in Hp.
+  pose proof (eps_adjs_length c m Wm) as Lm. pose proof (eps_adjs_length c x Wx) as Lx.
+  pose proof (eps_vec_length c) as Le.
+  intros i Hi. apply (zall_le_within (eps_vec c)); auto; lia.
+Qed.
+
+
+(* ---- model-level forms of the characterisations (used by Props/C05.v) ---- *)
+Theorem eps_compare_first_iff c a b : wf_cfg c -> wf_sol c a -> wf_sol c b ->
+  (eps_compare c a b = Some (-1) <-> edom c a b).
+Proof.
+  intros Wc Wa Wb. rewrite (eps_compare_spec c a b Wc Wa Wb).
+  rewrite <- (cmp_spec_first c a b Wa Wb). split; intro H; [now injection H|now f_equal].
+Qed.
+
+Theorem eps_compare_same_box c a b : wf_cfg c -> wf_sol c a -> wf_sol c b ->
+  (eps_vkey c a == eps_vkey c b)%Q -> eps_boxes c a = eps_boxes c b ->
+  eps_compare c a b = Some (if Qltb (eps_cdist c a) (eps_cdist c b) then -1 else 1).
+Proof.
+  intros Wc Wa Wb V E. rewrite (eps_compare_spec c a b Wc Wa Wb). f_equal. now apply cmp_spec_same_box.
+Qed.
+
+Theorem einv_clauses c l a imp : EInv c l a imp ->
+  incl a l /\
+  ForallOrdPairs (fun m m' => ~ ((eps_vkey c m == eps_vkey c m')%Q /\ eps_boxes c m = eps_boxes c m')) a /\
+  (forall m m', In m a -> In m' a -> (eps_vkey c m == eps_vkey c m')%Q) /\
+  (forall m m', In m a -> In m' a -> zdom (eps_boxes c m) (eps_boxes c m') = false) /\
+  Forall (fun x => Exists (fun m =>
+      (eps_vkey c m < eps_vkey c x)%Q \/
+      ((eps_vkey c m == eps_vkey c x)%Q /\ zall_le (eps_boxes c m) (eps_boxes c x) = true)) a) l /\
+  imp = new_box_count c l.
+Proof. intros [H1 H2 H3 H4 H5 H5' H5'' H6]. repeat split; assumption. Qed.
+
+(* consequence for plain Pareto dominance: the archive never keeps a solution that some offered
+   solution Pareto-dominates *)
+Theorem einv_pareto_nondominated c l a imp : wf_cfg c -> Forall (wf_sol c) l -> EInv c l a imp ->
+  forall x m, In x l -> In m a -> pareto_cmp c x m <> -1.
+Proof.
+  intros Wc Wl H x m Hx Hm P. rewrite Forall_forall in Wl.
+  pose proof (Wl x Hx) as Wx. pose proof (Wl m (ei_members_offered c l a imp H m Hm)) as Wm.
+  apply (eps_respects_pareto c x m Wc Wx Wm) in P.
+  apply (eps_compare_first_iff c x m Wc Wx Wm) in P.
+  exact (ei_members_nondominated c l a imp H x m Hx Hm P).
+Qed.
+
+Theorem einv_strong c l a imp : EInv c l a imp ->
+  Forall (fun x => Exists (fun m => geq c m x) a) l /\
+  (forall x m, In x l -> In m a -> ~ edom c x m).
+Proof. intros H. split; [exact (ei_strong_coverage c l a imp H)|exact (ei_members_nondominated c l a imp H)]. Qed.
+
+
+(* ------------------------------------------------------------------------- *)
+(* Part 5 : non-vacuity                                                       *)
+(* ------------------------------------------------------------------------- *)
+(* two objectives, the second maximised, ONE epsilon 1/2 (reused for the second objective),
+   constrained problem *)
+Definition ex_cfg : ecfg := ECfg [1#2] [false; true] true.
+Definition ex_a : esol := ESol 0 [(-3)#4; 1#2] 0.        (* adjusted (-3/4,-1/2): box (-2,-1), corner dist 1/16 *)
+Definition ex_b : esol := ESol 1 [(-5)#8; 3#4] 0.        (* adjusted (-5/8,-3/4): box (-2,-2) *)
+Definition ex_c : esol := ESol 2 [(-7)#8; 5#8] 0.        (* adjusted (-7/8,-5/8): box (-2,-2), nearer the corner than ex_b *)
+Definition ex_d : esol := ESol 3 [(-1)#1; 1#1] (1#4).    (* box (-2,-2) but violating *)
+Definition ex_e : esol := ESol 4 [(-5)#8; 3#4] 0.        (* twin of ex_b *)
+Definition ex_f : esol := ESol 5 [1#4; 7#4] 0.           (* adjusted (1/4,-7/4): box (0,-4) *)
+
+Example ex_wf : wf_cfg ex_cfg /\ Forall (wf_sol ex_cfg) [ex_a; ex_b; ex_c; ex_d; ex_e; ex_f].
+Proof.
+  split.
+  - split; [discriminate|]. repeat constructor.
+  - repeat constructor; unfold Qle; simpl; lia.
+Qed.
+
+Example ex_boxes :
+  eps_boxes ex_cfg ex_a = [-2; -1] /\ eps_boxes ex_cfg ex_b = [-2; -2] /\
+  eps_boxes ex_cfg ex_c = [-2; -2] /\ eps_boxes ex_cfg ex_f = [0; -4] /\ eps_vec ex_cfg = [1#2; 1#2].
+Proof. repeat split; vm_compute; reflexivity. Qed.
+
+(* box dominance / same box nearer / same box equal distance answers 1 both ways /
+   incomparable boxes / violation first *)
+Example ex_compare :
+  eps_compare ex_cfg ex_b ex_a = Some (-1) /\ eps_compare ex_cfg ex_a ex_b = Some 1 /\
+  eps_compare ex_cfg ex_c ex_b = Some (-1) /\ eps_compare ex_cfg ex_b ex_c = Some 1 /\
+  eps_compare ex_cfg ex_b ex_e = Some 1 /\ eps_compare ex_cfg ex_e ex_b = Some 1 /\
+  eps_compare ex_cfg ex_f ex_a = Some 0 /\
+  eps_compare ex_cfg ex_a ex_d = Some (-1) /\ eps_compare ex_cfg ex_d ex_a = Some 1.
+Proof. repeat split; vm_compute; reflexivity. Qed.
+
+Example ex_same_box :
+  same_box ex_cfg ex_b ex_c = Some true /\ same_box ex_cfg ex_b ex_a = Some false /\
+  same_box ex_cfg ex_b ex_d = Some false /\ same_box ex_cfg ex_d ex_d = Some true.
+Proof. repeat split; vm_compute; reflexivity. Qed.
+
+(* exceptions are visible in the model: empty epsilon list, epsilon 0, short objective vector;
+   and the early exit / the violation ladder return before the failing index is reached *)
+Example ex_errors :
+  eps_compare (ECfg [] [false] false) (ESol 0 [1#1] 0) (ESol 1 [2#1] 0) = None /\
+  eps_compare (ECfg [1#1; 0#1] [false; false] false) (ESol 0 [1#1; 1#1] 0) (ESol 1 [2#1; 2#1] 0) = None /\
+  eps_compare (ECfg [1#1] [false; false] false) (ESol 0 [1#1] 0) (ESol 1 [2#1; 2#1] 0) = None /\
+  eps_compare (ECfg [1#1; 1#1; 0#1] [false; false; false] false)
+              (ESol 0 [1#1; 2#1; 0#1] 0) (ESol 1 [2#1; 1#1; 0#1] 0) = Some 0 /\
+  eps_compare (ECfg [0#1] [false] true) (ESol 0 [1#1] 0) (ESol 1 [2#1] 1) = Some (-1).
+Proof. repeat split; vm_compute; reflexivity. Qed.
+
+(* the hypothesis of eps_respects_pareto is satisfiable with the solutions in ONE box
+   (so the tie-break is what has to agree with Pareto) *)
+Example ex_pareto :
+  pareto_cmp ex_cfg ex_c (ESol 9 [(-3)#4; 5#8] 0) = -1 /\
+  eps_boxes ex_cfg ex_c = eps_boxes ex_cfg (ESol 9 [(-3)#4; 5#8] 0) /\
+  eps_compare ex_cfg ex_c (ESol 9 [(-3)#4; 5#8] 0) = Some (-1).
+Proof. repeat split; vm_compute; reflexivity. Qed.
+
+(* a history: a enters an empty box (1); b box-dominates a and enters a new box (2);
+   c replaces b inside the SAME box: accepted but NOT an improvement; the twin e of b and the
+   violating d are rejected; f enters a new, incomparable box (3).  Five... six offers,
+   four accepted, counter 3. *)
+Example ex_history :
+  eps_box_run ex_cfg [ex_a; ex_b; ex_c; ex_e; ex_d; ex_f] = Some ([ex_c; ex_f], 3%nat) /\
+  eps_plain_run ex_cfg [ex_a; ex_b; ex_c; ex_e; ex_d; ex_f] = Some [ex_c; ex_f] /\
+  new_box_count ex_cfg [ex_a; ex_b; ex_c; ex_e; ex_d; ex_f] = 3%nat.
+Proof. repeat split; vm_compute; reflexivity. Qed.
+
+Example ex_transitive_chain :
+  eps_compare ex_cfg ex_c ex_b = Some (-1) /\ eps_compare ex_cfg ex_b ex_a = Some (-1) /\
+  eps_compare ex_cfg ex_c ex_a = Some (-1).
+Proof. repeat split; vm_compute; reflexivity. Qed.
